@@ -635,7 +635,8 @@ class GSchema:
             for fn in r.sample(["p", "q", "r", "s", "t"], r.randint(1, 4)):
                 base = r.choice(list(self.inputs)) if self.inputs and r.random() < 0.3 else r.choice(self.leafs)
                 ts = wrap(r.choice(IN_WRAPS), base)
-                default = self.lit(parse_type(ts), allow_null=True) if r.random() < 0.35 else None
+                default = (self.lit(parse_type(ts), allow_null=True)
+                           if r.random() < (0.6 if ts.endswith("!") else 0.35) else None)
                 fs.append((fn, ts, default))
             self.inputs[f"In{i}"] = (False, fs)
         if r.random() < 0.45:
@@ -722,19 +723,27 @@ class GSchema:
         return (fn, ts, args)
 
     # literal text of a valid constant for an input type
-    def lit(self, t, allow_null=False, depth=0, vh=None):
-        """vh(typestr, has_default) -> '$var' : optional hook that may put variables inside."""
+    def lit(self, t, allow_null=False, depth=0, vh=None, encl=False):
+        """vh(typestr, has_default, enclosing_default) -> '$var': optional hook that may put variables
+        inside (as input field values and as list items); encl = the argument / input field whose
+        value this literal is (part of) has a default."""
         r = self.rng
         if t[0] == "nn":
-            return self.lit(t[1], False, depth, vh)
+            return self.lit(t[1], False, depth, vh, encl)
         if allow_null and r.random() < 0.12:
             return "null"
         if t[0] == "list":
             if r.random() < 0.15 and depth < 2:
                 inner = t[1][1] if t[1][0] == "nn" else t[1]
                 if inner[0] == "named":
-                    return self.lit(inner, False, depth + 1, vh)       # list of one
-            return "[" + ", ".join(self.lit(t[1], True, depth + 1, vh) for _ in range(r.randint(0, 3))) + "]"
+                    return self.lit(inner, False, depth + 1, vh, encl)       # list of one
+            items = []
+            for _ in range(r.randint(0, 3)):
+                if vh and r.random() < 0.2:
+                    items.append(vh(type_str(t[1]), False, encl))           # a variable as list item
+                else:
+                    items.append(self.lit(t[1], True, depth + 1, vh, encl))
+            return "[" + ", ".join(items) + "]"
         n = t[1]
         if n in self.inputs:
             one_of, fs = self.inputs[n]
@@ -749,10 +758,10 @@ class GSchema:
                 required = ts.endswith("!") and default is None
                 if not required and r.random() < 0.4:
                     continue
-                if vh and r.random() < 0.25:
+                if vh and r.random() < 0.35:
                     parts.append(f"{fn}: {vh(ts, default is not None)}")
                 else:
-                    parts.append(f"{fn}: {self.lit(parse_type(ts), True, depth + 1, vh)}")
+                    parts.append(f"{fn}: {self.lit(parse_type(ts), True, depth + 1, vh, default is not None)}")
             r.shuffle(parts)
             return "{" + ", ".join(parts) + "}"
         if n == "Int":
@@ -811,7 +820,10 @@ class DocGen:
         self.altkey = {}
 
     # a variable of (a type usable at) the given input type
-    def var_for(self, at, has_loc_default):
+    def var_for(self, at, has_loc_default, encl_default=False):
+        """A variable for a position of type `at`.  has_loc_default: the position itself (argument /
+        input field) has a default; encl_default: the position is an item of a list literal that is
+        (part of) the value of an argument / input field with a default."""
         r = self.rng
         t = parse_type(at)
         same = [n for n, (ts, _) in self.vars.items() if ts == at]
@@ -821,15 +833,22 @@ class DocGen:
         vt, default = at, None
         k = r.random()
         if t[0] == "nn":
-            if k < 0.25:
+            if k < 0.2:
                 # nullable variable with a default in a non-null position (allowed by the default)
                 vt = type_str(t[1])
                 default = self.gs.lit(t[1], False)
                 self.features.add("nullable_var_default_in_nonnull_pos")
-            elif k < 0.35 and has_loc_default:
+            elif k < 0.6 and has_loc_default:
+                # nullable variable without default: allowed because the position has a default, which
+                # applies when the variable has no value
                 vt = type_str(t[1])
                 self.features.add("nullable_var_in_nonnull_pos_with_arg_default")
-            elif k < 0.5:
+            elif k < 0.45 and encl_default:
+                # NOT valid: a list item position has no default of its own even if the enclosing
+                # argument / input field has one; validate() must reject the document
+                vt = type_str(t[1])
+                self.features.add("near_miss:nullable_var_in_nonnull_item_of_defaulted_list")
+            elif k < 0.7:
                 default = self.gs.lit(t, False)
         else:
             if k < 0.3:
@@ -851,22 +870,24 @@ class DocGen:
             if k < 0.35:
                 parts.append(f"{an}: {self.var_for(at, default is not None)}")
                 self.features.add("arg_variable")
-            elif k < 0.45 and at.startswith("["):
+            elif k < 0.5 and at.startswith("["):
                 # variable inside a list literal
                 it = parse_type(at)
                 it = it[1] if it[0] == "nn" else it
                 item_t = type_str(it[1])
-                parts.append(f"{an}: [{self.var_for(item_t, False)}, {self.gs.lit(it[1], True)}]")
+                items = [self.var_for(item_t, False, default is not None), self.gs.lit(it[1], True)]
+                r.shuffle(items)
+                parts.append(f"{an}: [{', '.join(items)}]")
                 self.features.add("var_in_list")
             else:
                 vh = None
                 if named(parse_type(at)) in self.gs.inputs:
                     self.features.add("input_object_literal")
-                    if r.random() < 0.5:
-                        def vh(ts, has_default):
+                    if r.random() < 0.6:
+                        def vh(ts, has_default, encl_default=False):
                             self.features.add("var_in_input_object")
-                            return self.var_for(ts, has_default)
-                parts.append(f"{an}: {self.gs.lit(parse_type(at), True, 0, vh)}")
+                            return self.var_for(ts, has_default, encl_default)
+                parts.append(f"{an}: {self.gs.lit(parse_type(at), True, 0, vh, default is not None)}")
         r.shuffle(parts)
         return "(" + ", ".join(parts) + ")" if parts else ""
 
